@@ -150,6 +150,7 @@ func clientWorld(shared *World, c int) *World {
 
 // soloRun executes client c's program alone. With prog == nil the program is generated.
 func soloRun(cs *C18Case, c int, gen *RNG, length int, adversarial bool, st *C18Stats) ([]Op, []Outcome, bool) {
+	S.countOnly = true
 	tensor.UsePool()
 	tensor.VerifDrainChanPools()
 	P.Reset(adversarial)
@@ -372,6 +373,12 @@ func execC18(cs *C18Case, tier string, replay bool, st *C18Stats) (*Violation, u
 		prog, outs, mut := soloRun(cs, c, gen, length, false, st)
 		cs.Programs[c] = prog
 		solo[c] = outs
+		for k, o := range outs {
+			if o.St == stBudget {
+				return &Violation{Property: "C18", Kind: "no-termination", Step: k, FailOp: prog[k].Name, Class: "budget-solo",
+					Detail: fmt.Sprintf("client %d operation %d (%s) does not terminate even when the client runs alone (last at %s)", c, k, prog[k].String(), siteName(S.budgetSite)), Ops: allOpNames(cs)}, 0
+			}
+		}
 		if mut {
 			// a client that changes a shared tensor when running alone is a sequential defect
 			// (C19's frame oracle), not a concurrency one
@@ -396,8 +403,8 @@ func execC18(cs *C18Case, tier string, replay bool, st *C18Stats) (*Violation, u
 		}
 	}
 	if S.overBudget {
-		fmt.Fprintf(os.Stderr, "tsim: C18 seed %d: yield budget exceeded\n", cs.Seed)
-		os.Exit(2)
+		return &Violation{Property: "C18", Kind: "no-termination", FailOp: siteName(S.budgetSite), Class: "budget",
+			Detail: fmt.Sprintf("the concurrent run was still executing after %d statements (client %d, last at %s): an operation does not terminate under this interleaving", S.maxYields, S.budgetClient, siteName(S.budgetSite)), Ops: allOpNames(cs)}, res.digest
 	}
 	if res.deadlock {
 		return &Violation{Property: "C18", Kind: "deadlock", FailOp: siteName(S.deadlockSite), Class: "deadlock",
